@@ -39,6 +39,17 @@ Select(branches, n) ==
     LET I == { i \in DOMAIN branches : BranchContains(branches[i], n) } IN
     IF I = {} THEN 0 ELSE CHOOSE i \in I : \A j \in I : i <= j
 
+\* the 8-bit types with their real values: counts are then plain integers
+AnchorInt == [i8 |-> <<-128, -1, 0, 1, 5, 127>>, u8 |-> <<0, 1, 2, 5, 254, 255>>]
+InSpecInt(s, n, A) ==
+    CASE s.f = "exact" -> n = A[s.a]
+      [] s.f = "excl"  -> (s.lo = 0 \/ A[s.lo] <= n) /\ (s.hi = 0 \/ n < A[s.hi])
+      [] s.f = "incl"  -> (s.lo = 0 \/ A[s.lo] <= n) /\ n <= A[s.hi]
+      [] OTHER         -> TRUE
+SelectInt(branches, n, ty) ==
+    LET I == { i \in DOMAIN branches : \E j \in DOMAIN branches[i].alts : InSpecInt(branches[i].alts[j], n, AnchorInt[ty]) } IN
+    IF I = {} THEN 0 ELSE CHOOSE i \in I : \A j \in I : i <= j
+
 \* ---- documented rejections ---------------------------------------------------
 IsFloat(ty) == ty \in {"f32", "f64"}
 
